@@ -57,6 +57,7 @@ public:
     void reportOut(const std::string &outmsg, Color c) override
     {
         std::lock_guard<std::mutex> lg(mReportSync);
+        VERIF_EVT("Access", verif::kv("obj", "report") + verif::kv("kind", "W") + verif::kb("held", verif::held(mReportSync)));
 
         mErrorLogger.reportOut(outmsg, c);
     }
@@ -77,6 +78,7 @@ public:
 
     void reportStatus(std::size_t fileindex, std::size_t filecount, std::size_t sizedone, std::size_t sizetotal) {
         std::lock_guard<std::mutex> lg(mReportSync);
+        VERIF_EVT("Access", verif::kv("obj", "report") + verif::kv("kind", "W") + verif::kb("held", verif::held(mReportSync)));
         mThreadExecutor.reportStatus(fileindex, filecount, sizedone, sizetotal);
     }
 
@@ -157,6 +159,7 @@ public:
 
     void status(std::size_t fileSize) {
         std::lock_guard<std::mutex> l(mFileSync);
+        VERIF_EVT("Access", verif::kv("obj", "fileIter") + verif::kv("kind", "W") + verif::kb("held", verif::held(mFileSync)));
         mProcessedSize += fileSize;
         mProcessedFiles++;
         if (!mSettings.quiet)
